@@ -25,22 +25,33 @@ Definition views_of (hs : list hop) : list cview :=
 Definition run_history (inp : list Z) : list Z :=
   flat_map enc_cview (views_of (dec_history inp)).
 
-(* per entry point: node names stable so far (hypothesis of clauses 3, 4, 6) *)
-Fixpoint flags (c : cache) (st : bool) (hs : list hop) : list bool :=
+(* hypotheses evaluated along the model's run, per entry point:
+   node names stable so far (clauses 3, 4, 6); Some L while every delivered pod object was recorded
+   consistently so far, L = the delivered objects, newest first (clause 9) *)
+Notation flag := (bool * option (list preq))%type.
+
+Definition next_last (c : cache) (l : list cop) (last : option (list preq)) : option (list preq) :=
+  match last with
+  | Some L => if all_along sync_op c l then Some (deliver L l) else None
+  | None => None
+  end.
+
+Fixpoint flags (c : cache) (st : bool) (last : option (list preq)) (hs : list hop) : list flag :=
   match hs with
   | [] => []
   | h :: t =>
-    let st' := st && all_along node_stable_op c (lower h) in
-    st' :: flags (hstep c h) st' t
+    let st' := st && all_along node_stable_op c (lower c h) in
+    let last' := next_last c (lower c h) last in
+    (st', last') :: flags (hstep c h) st' last' t
   end.
-Definition flags_of (hs : list hop) := flags init_cache true hs.
+Definition flags_of (hs : list hop) := flags init_cache true (Some []) hs.
 
 Definition dec_views (n : nat) (obs : list Z) : list cview := fst (decode_many dec_cview n obs).
 
 (* an operating pod that names a current owner must come out with that owner assigned (so that,
    being allocate-once, it is not offered again): (reservation uid, owner uid) claimed by h *)
-Definition owner_claim (h : hop) : option (Z * Z) :=
-  match rev (lower h) with
+Definition owner_claim (c : cache) (h : hop) : option (Z * Z) :=
+  match rev (lower c h) with
   | CUpdate false own s :: _ => if own =? 0 then None else Some (s_uid s, own)
   | _ => None
   end.
@@ -52,22 +63,33 @@ Definition claim_ok (cl : option (Z * Z)) (o : cview) : bool :=
             (o_infos o)
   end.
 
-(* clause 8: the current owner of an operating pod is assigned *)
-Definition step_code (h : hop) (st : bool) (v : cview) : Z :=
-  let c := prop_view st v in
-  if c =? 0 then (if claim_ok (owner_claim h) v then 0 else 8) else c.
+(* one step: the state clauses of prop_view, then 8 (the current owner of an operating pod is
+   assigned), then 10 / 11 (a scheduling cycle respected the allocate-once gate / the restricted
+   fit), judged on the dumps before and after the step *)
+Definition step_code (cl : option (Z * Z)) (h : hop) (f : flag) (prev : list iview) (v : cview) : Z :=
+  let c := prop_view (fst f) (snd f) v in
+  if c =? 0 then (if claim_ok cl v then sched_code h prev (o_infos v) else 8) else c.
 
-Fixpoint codes (hs : list hop) (fl : list bool) (vs : list cview) : list Z :=
-  match hs, fl, vs with
-  | h :: hs', f :: fl', v :: vs' => step_code h f v :: codes hs' fl' vs'
-  | _, _, _ => []
+(* claims are computed along the model's run *)
+Fixpoint claims (c : cache) (hs : list hop) : list (option (Z * Z)) :=
+  match hs with
+  | [] => []
+  | h :: t => owner_claim c h :: claims (hstep c h) t
+  end.
+
+Fixpoint codes (cls : list (option (Z * Z))) (hs : list hop) (fl : list flag) (prev : list iview)
+         (vs : list cview) : list Z :=
+  match cls, hs, fl, vs with
+  | cl :: cls', h :: hs', f :: fl', v :: vs' =>
+    step_code cl h f prev v :: codes cls' hs' fl' (o_infos v) vs'
+  | _, _, _, _ => []
   end.
 
 Definition prop_history (inp obs : list Z) : Z :=
   if crashed obs then 99
   else
     let hs := dec_history inp in
-    first_nonzero (codes hs (flags_of hs) (dec_views (length hs) obs)).
+    first_nonzero (codes (claims init_cache hs) hs (flags_of hs) [] (dec_views (length hs) obs)).
 
 (* no known finding shape is left for this stream (finding 1 was repaired by 75e0c17): every
    failure of the decision procedure is a violation *)
